@@ -126,6 +126,51 @@ fn last_panic() -> String {
 }
 
 // ------------------------------------------------------------------------------------ zoo
+thread_local! {
+    /// (address of a local at the start of the measurement, deepest address seen by a `StackProbe`)
+    static STACK_MARKS: std::cell::Cell<(usize, usize)> = const { std::cell::Cell::new((0, 0)) };
+}
+
+#[inline(never)]
+fn note_stack_depth() {
+    let marker = 0u8;
+    let addr = &marker as *const u8 as usize;
+    STACK_MARKS.with(|m| {
+        let (base, deepest) = m.get();
+        if base != 0 && (deepest == 0 || addr < deepest) {
+            m.set((base, addr));
+        }
+    });
+}
+
+/// a leaf iterable that notes how deep the native stack is whenever it is asked for its items: a
+/// hook-free probe of how deeply the lazy wrappers around it nest
+#[derive(Debug)]
+struct StackProbe {
+    sized: bool,
+}
+
+impl minijinja::value::Object for StackProbe {
+    fn repr(self: &std::sync::Arc<Self>) -> minijinja::value::ObjectRepr {
+        if self.sized { minijinja::value::ObjectRepr::Seq } else { minijinja::value::ObjectRepr::Iterable }
+    }
+    fn get_value(self: &std::sync::Arc<Self>, key: &Value) -> Option<Value> {
+        note_stack_depth();
+        key.as_usize().filter(|i| *i < 1).map(|_| Value::from("leaf"))
+    }
+    fn enumerate(self: &std::sync::Arc<Self>) -> minijinja::value::Enumerator {
+        note_stack_depth();
+        if self.sized {
+            minijinja::value::Enumerator::Seq(1)
+        } else {
+            minijinja::value::Enumerator::Iter(Box::new(std::iter::once(Value::from("leaf")).filter(|_| {
+                note_stack_depth();
+                true
+            })))
+        }
+    }
+}
+
 /// a host object whose `render` (= Display) fails by itself after writing `pieces` pieces
 #[derive(Debug)]
 struct FailingDisplay {
@@ -550,6 +595,45 @@ fn run_kernel(f: &[&str]) -> String {
             }
             Ok(format!("ok:{}", ids.join(",")))
         })),
+        // k mergedepth PATTERN SIZED K → ok:bounded | ok:grows:<bytes>   after K rounds of an accumulate
+        // pattern around a `StackProbe` leaf, is the native stack at the leaf (while the result is iterated)
+        // still what it was after 64 rounds?  (the lazy-concat depth accounting bounds the nesting)
+        "mergedepth" => finish(guarded(|| {
+            let k: usize = f[3].parse().unwrap();
+            let expr = match f[1] {
+                "af" => "ns.acc + [i]",
+                "fa" => "[i] + ns.acc",
+                "aff" => "ns.acc + ([i] + [i])",
+                "ffa" => "([i] + [i]) + ns.acc",
+                "faf" => "[i] + ns.acc + [i]",
+                "ffaff" => "([i] + [i]) + ns.acc + ([i] + [i])",
+                "ca" => "ns.acc|chain([i])",
+                "ac" => "[i]|chain(ns.acc)",
+                "cfa" => "([i]|chain([i]))|chain(ns.acc)",
+                "cafc" => "[i]|chain(ns.acc, [i]|chain([i]))",
+                "mix" => "([i]|chain([i])) + ns.acc",
+                _ => "(it + it) + ns.acc",
+            };
+            let src = format!("{{% set ns = namespace(acc=probe) %}}{{% for i in range(n) %}}{{% set ns.acc = {} %}}{{% endfor %}}{{% for x in ns.acc %}}{{% endfor %}}", expr);
+            let measure = |rounds: usize| -> Result<usize, Error> {
+                let base = 0u8;
+                STACK_MARKS.with(|m| m.set((&base as *const u8 as usize, 0)));
+                env.render_str(&src, context! { probe => Value::from_object(StackProbe { sized: f[2] == "1" }), n => rounds,
+                    it => Value::make_iterable(|| (0..2i64).filter(|_| true)) })?;
+                let (b, d) = STACK_MARKS.with(|m| m.get());
+                STACK_MARKS.with(|m| m.set((0, 0)));
+                Ok(if d == 0 { 0 } else { b.saturating_sub(d) })
+            };
+            let plateau = measure(64)?;
+            let at_k = measure(k)?;
+            if plateau == 0 || at_k == 0 {
+                Ok("ok:leaf-not-reached".to_string())
+            } else if at_k <= 2 * plateau + 16_384 {
+                Ok("ok:bounded".to_string())
+            } else {
+                Ok(format!("ok:grows:{}:{}", plateau, at_k))
+            }
+        })),
         // k loopesc LEN SIZED BRK → ok:<attrs of the loop object read AFTER its loop> (the object escapes
         // through a namespace; BRK = leave at the first item, otherwise the loop is exhausted)
         "loopesc" => finish(guarded(|| {
@@ -821,6 +905,60 @@ fn depth_source(kind: &str, n: usize) -> (String, bool) {
     // stkmax:<chain>:<group>:<placement> n — the same shape with the limit shared among the n chains:
     // about the deepest input the parser accepts
     let parts: Vec<&str> = kind.split(':').collect();
+    if parts[0] == "acc" && parts.len() == 5 {
+        // acc:<op>:<order>:<other>:<start> n — n rounds of `acc = acc OP other` (a value-building operator
+        // or filter applied to its own previous result), then the result is iterated, measured and dropped
+        let other = match parts[3] {
+            "list" => "[i]",
+            "range" => "range(2)",
+            "tuple" => "(i,)",
+            "lazy" => "it",
+            "str" => "'ab'",
+            "safe" => "safe",
+            "map" => "{'k': i}",
+            "fresh" => match parts[1] {
+                "chain" => "([i]|chain([i]))",
+                "tilde" => "('a' ~ i)",
+                _ => "([i] + [i])",
+            },
+            _ => "[i]",
+        };
+        let a = "ns.acc";
+        let expr = match (parts[1], parts[2]) {
+            ("add", "first") => format!("{} + {}", a, other),
+            ("add", "last") => format!("{} + {}", other, a),
+            ("add", _) => format!("{} + {} + {}", other, a, other),
+            ("chain", "first") => format!("{}|chain({})", a, other),
+            ("chain", "last") => format!("{}|chain({})", other, a),
+            ("chain", _) => format!("{}|chain({}, {})", other, a, other),
+            ("tilde", "first") => format!("{} ~ {}", a, other),
+            ("tilde", "last") => format!("{} ~ {}", other, a),
+            ("tilde", _) => format!("{} ~ {} ~ {}", other, a, other),
+            ("mul", _) => format!("{} * 1", a),
+            ("dict", _) => format!("dict({}, k=i)", a),
+            ("filter", f) => format!("{}|{}", a, match f {
+                "map" => "map('string')", "select" => "select", "reject" => "reject('none')", "batch" => "batch(3)|first",
+                "slice" => "slice(1)|first", "reverse" => "reverse", "list" => "list", "unique" => "unique", "sort" => "sort",
+                "items" => "items", "default" => "default([])", "lines" => "string|lines", "zip" => "zip(xs)|map('first')",
+                "groupby" => "groupby(0)|map('last')|first|default([])", "sliceexpr" => "list", _ => "list",
+            }),
+            ("slice", _) => format!("{}[:]", a),
+            ("slicerev", _) => format!("{}[::-1]", a),
+            _ => a.to_string(),
+        };
+        let start = match parts[4] {
+            "sized" => "[]",
+            "unsized" => "it",
+            "str" => "''",
+            "map" => "{}",
+            _ => "[1, 2]",
+        };
+        let src = format!(
+            "{{% set ns = namespace(acc={}) %}}{{% for i in range({}) %}}{{% set ns.acc = {} %}}{{% endfor %}}{{% set c = namespace(n=0) %}}{{% for x in ns.acc %}}{{% set c.n = c.n + 1 %}}{{% endfor %}}{{{{ c.n }}}}",
+            start, n.min(100_000), expr
+        );
+        return (src, true);
+    }
     if parts[0] == "w" && parts.len() == 2 {
         // width probes: n distinct / adjacent things of one kind in one template
         let each = |f: &dyn Fn(usize) -> String| -> String { (0..n).map(f).collect::<Vec<_>>().join("") };
@@ -1263,7 +1401,7 @@ fn dump_streams(thorough: bool) {
                 sources.push((c.clone(), format!("{{{{ {} }}}}", s)));
             }
         } else if f[0] == "d" && f.len() == 3 {
-            let ns: &[usize] = if f[1].starts_with("stk") { &[2] } else if f[1].starts_with("w:") { &[60] } else { &[3, 40] };
+            let ns: &[usize] = if f[1].starts_with("stk") { &[2] } else if f[1].starts_with("w:") { &[60] } else if f[1].starts_with("acc:") { &[3] } else { &[3, 40] };
             if f[1].starts_with("w:") && f[2] != "50" {
                 continue; // one dump per width kind
             }
@@ -2265,6 +2403,42 @@ fn gen_cases(thorough: bool) -> Vec<String> {
         for k in [65_534usize, 65_535, 65_536, 65_537] {
             for kind in ["vars", "lines", "longline", "longname", "longstr"] {
                 cases.push(format!("d w:{} {}", kind, k));
+            }
+        }
+    }
+    // (4d) accumulate-loop probes: every value-building operator / filter that can wrap its own previous
+    // result x operand order x kind of the other operand x sized / unsized accumulator
+    {
+        let rounds = if thorough { 100_000 } else { 10_000 };
+        for op in ["add", "chain"] {
+            for order in ["first", "last", "mid"] {
+                for other in ["list", "range", "tuple", "lazy", "fresh", "str"] {
+                    for start in ["sized", "unsized"] {
+                        cases.push(format!("d acc:{}:{}:{}:{} {}", op, order, other, start, rounds));
+                    }
+                }
+            }
+        }
+        for order in ["first", "last", "mid"] {
+            for other in ["str", "safe", "fresh", "list"] {
+                cases.push(format!("d acc:tilde:{}:{}:str {}", order, other, rounds.min(20_000)));
+            }
+        }
+        // (`string|lines` applied to its own result doubles its escapes every round: memory, not nesting)
+        for f in ["map", "select", "reject", "batch", "slice", "reverse", "list", "unique", "sort", "default", "zip", "groupby"] {
+            for start in ["sized", "unsized", "two"] {
+                cases.push(format!("d acc:filter:{}:none:{} {}", f, start, rounds.min(20_000)));
+            }
+        }
+        for (op, start) in [("mul", "two"), ("mul", "unsized"), ("dict", "map"), ("chain", "map"), ("slice", "two"), ("slice", "unsized"), ("slicerev", "two"), ("filter:items", "map")] {
+            let (o, ord) = op.split_once(':').unwrap_or((op, "first"));
+            cases.push(format!("d acc:{}:{}:map:{} {}", o, ord, start, rounds.min(20_000)));
+        }
+    }
+    for pat in ["af", "fa", "aff", "ffa", "faf", "ffaff", "ca", "ac", "cfa", "cafc", "mix", "lazyfresh"] {
+        for sized in ["0", "1"] {
+            for k in [33usize, 100, 1500] {
+                cases.push(format!("k mergedepth {} {} {}", pat, sized, k));
             }
         }
     }
